@@ -83,7 +83,13 @@ fn recover_replica(sim: &mut RSim, files: &Files, cands: &[&ReplicaModel], ctxt:
         Err(p) => return Err(panic_failure(&format!("{ctxt}: reopening the replica after the crash"), &p)),
     };
     let upto = cands.iter().map(|m| m.length).max().unwrap_or(0) + 3;
-    let obs = hc::observe(&mut core, upto, false).map_err(|p| panic_failure(&format!("{ctxt}: observing the recovered replica"), &p))?;
+    let mut differ: Vec<u64> = vec![];
+    if cands.len() > 1 && upto > 400 {
+        for c in cands.iter().skip(1) {
+            differ.extend(cands[0].held.symmetric_difference(&c.held).copied());
+        }
+    }
+    let obs = hc::observe_with(&mut core, upto, false, &differ).map_err(|p| panic_failure(&format!("{ctxt}: observing the recovered replica"), &p))?;
     let mut matched = None;
     let mut diffs = vec![];
     for (i, m) in cands.iter().enumerate() {
